@@ -53,9 +53,19 @@ ENV0 = {"SEED": "0", "SMALLN": "3", "STRATUM": "none", "FROM": "0", "TO": "0", "
 
 
 def tlc_step(step, env, timeout, xmx="8g", must_pass=True):
-    e = dict(ENV0, STEP=step, JAVA_TOOL_OPTIONS="-Xss32m")
+    """Like vlib.tlc, with a larger Java stack on the command line: TLC evaluates the recursive operators of Cpp.tla
+    (one frame per token / per case) on the main thread, whose stack size only the launcher option -Xss sets."""
+    e = dict(ENV0, STEP=step)
     e.update({k: str(v) for k, v in env.items()})
-    r = vlib.tlc("Cpp", "Cpp.cfg", env=e, workers=1, timeout=timeout, xmx=xmx)
+    meta = vlib.mktmp("tlcmeta")
+    cmd = ["java", "-XX:+UseParallelGC", "-Xss512m", "-Xmx" + xmx, "-cp", vlib.TLA_CP, "tlc2.TLC", "-metadir", meta, "-workers", "1",
+           "-deadlock", "-config", "Cpp.cfg", "Cpp.tla"]
+    t0 = time.time()
+    rc, out, err = vlib.run(cmd, cwd=vlib.SPEC, env=e, timeout=timeout)
+    shutil.rmtree(meta, ignore_errors=True)
+    if rc is None:
+        raise vlib.InfraError("TLC timeout (%ss) on Cpp step=%s\n%s" % (timeout, step, out[-2000:]))
+    r = vlib.TLCResult(rc, out + err, time.time() - t0)
     if r.error or (must_pass and not r.ok):
         raise vlib.InfraError("model failure in Cpp.tla step=%s rc=%s\n%s" % (step, r.rc, r.out[-3000:]))
     return r
